@@ -1,6 +1,6 @@
 // c09 drives resource_division.SetResourcesShare on generated sibling-queue sets
-// under shuffled map insertion orders (correspondence check and monitor for
-// property C09).
+// under shuffled map insertion orders, and opens the real proportion plugin on
+// generated queue hierarchies (correspondence check and monitor for property C09).
 package main
 
 import (
